@@ -1,8 +1,8 @@
 #!/bin/bash
-# usage: confirm_seed.sh <prop> <k>   (reads /tmp/wt-out/<prop>/patch<k>.diff, demo<k>_test.go, notes<k>.md)
+# usage: confirm_seed.sh <prop> <k> [srcbase=/tmp/wt-out] [destk=k]  (reads <srcbase>/<prop>/patch<k>.diff, demo<k>_test.go, notes<k>.md)
 # Confirms in a scratch worktree that the patch compiles, keeps the suite green, and that the
 # demo fails with it and passes without it; then stores it under /verif/seeded/<prop>-<k>/.
-P=$1; K=$2; SRC=/tmp/wt-out/$P; WT=/tmp/sv-$P-$K
+P=$1; K=$2; BASE=${3:-/tmp/wt-out}; DK=${4:-$K}; SRC=$BASE/$P; WT=/tmp/sv-$P-$DK
 export GOPROXY=off GOSUMDB=off GOTOOLCHAIN=local
 git -C /repo worktree add --detach $WT HEAD -q || exit 2
 cleanup() { git -C /repo worktree remove --force $WT; }
@@ -19,26 +19,26 @@ git apply $SRC/patch$K.diff || { echo "APPLY-FAIL"; exit 1; }
 go build ./... || { echo "BUILD-FAIL"; exit 1; }
 suite=$(/verif/scripts/run_suite.sh $WT | head -1)
 cp $demo $dir/zz_demo${K}_test.go
-(cd $WT && go test -count=1 $race -run "TestDemo${K}\$" ./$dir/ > /tmp/sv-$P-$K.with.log 2>&1); with=$?
+(cd $WT && go test -count=1 $race -run "TestDemo${K}\$" ./$dir/ > /tmp/sv-$P-$DK.with.log 2>&1); with=$?
 git checkout -q -- . 
-(cd $WT && go test -count=1 $race -run "TestDemo${K}\$" ./$dir/ > /tmp/sv-$P-$K.without.log 2>&1); without=$?
+(cd $WT && go test -count=1 $race -run "TestDemo${K}\$" ./$dir/ > /tmp/sv-$P-$DK.without.log 2>&1); without=$?
 rm -f $dir/zz_demo${K}_test.go
-echo "$P-$K suite=[$suite] demo-with-patch-exit=$with demo-without-exit=$without race=[$race] dir=$dir"
+echo "$P-$DK suite=[$suite] demo-with-patch-exit=$with demo-without-exit=$without race=[$race] dir=$dir"
 if [ "$suite" = "passed 155 failed 0" ] && [ $with -ne 0 ] && [ $without -eq 0 ]; then
-  D=/verif/seeded/$P-$K; mkdir -p $D
+  D=/verif/seeded/$P-$DK; mkdir -p $D
   cp $SRC/patch$K.diff $D/patch.diff; cp $demo $D/demo_test.go; cp $SRC/notes$K.md $D/notes.md
-  python3 - "$P" "$K" "$dir" "$race" <<'PY'
+  python3 - "$P" "$K" "$dir" "$race" "$BASE" "$DK" <<'PY'
 import json,sys,re
-p,k,d,race=sys.argv[1:5]
-notes=open(f'/tmp/wt-out/{p}/notes{k}.md').read()
-meta={"property":p,"id":f"{p}-{k}","source":"independent sub-agent given only the property text and a scratch worktree",
+p,k,d,race,base,dk=sys.argv[1:7]
+notes=open(f'{base}/{p}/notes{k}.md').read()
+meta={"property":p,"id":f"{p}-{dk}","source":"independent sub-agent given only the property text and a scratch worktree",
  "needs_to_manifest": notes.strip().split('\n')[0:12],
  "demo":{"file":"demo_test.go","copy_into":d,"run":f"go test -count=1 {race} -run 'TestDemo{k}$' ./{d}/".replace('  ',' ')},
  "confirmed":{"applies_to":"HEAD of /repo at confirmation time","builds":True,"suite":"155 passed, 0 failed with the patch","demo_with_patch":"FAIL","demo_without_patch":"PASS","how":"scripts/confirm_seed.sh in a scratch worktree, removed afterwards"},
  "detected_by":[]}
-json.dump(meta,open(f'/verif/seeded/{p}-{k}/meta.json','w'),indent=1)
+json.dump(meta,open(f'/verif/seeded/{p}-{dk}/meta.json','w'),indent=1)
 PY
   echo CONFIRMED
 else
-  echo NOT-CONFIRMED; tail -5 /tmp/sv-$P-$K.with.log; tail -5 /tmp/sv-$P-$K.without.log
+  echo NOT-CONFIRMED; tail -5 /tmp/sv-$P-$DK.with.log; tail -5 /tmp/sv-$P-$DK.without.log
 fi
